@@ -275,6 +275,17 @@ def run(ctx):
         r1 = one_fit("first", maxiter=full, start="far" if i % 2 else "near")
         r2 = one_fit("early stop", maxiter=int(rng.choice([1, 3])), start="far")
         # the repeated fit with the documented scaling of the objective handed to the minimiser (grad_scale): the reported minimum is the NLL itself
+        # between the fits of one session the range of a bounded mass is narrowed so that the previous minimum lies outside it: the next
+        # fit has to honour the range that is configured now
+        if r1 is not None and (i // len(methods)) % 2 == 1:
+            for k_b, (lo_b, hi_b) in list(cfg.bound_dic.items()):
+                if k_b.endswith("_mass") and lo_b is not None and hi_b is not None and k_b in r1.params:
+                    v_b = float(r1.params[k_b])
+                    mid_b = 0.5 * (lo_b + hi_b)
+                    cfg.bound_dic[k_b] = (lo_b, v_b - 0.25 * (v_b - lo_b)) if v_b - lo_b > hi_b - v_b else (v_b + 0.25 * (hi_b - v_b), hi_b)
+                    kinds.add("range narrowed between two fits of one session")
+                    ctx.covered("constraint", "range narrowed between two fits of one session")
+                    break
         gs_ = [None, 4.0, 0.25][(i // len(methods) + i) % 3]
         ctx.covered("grad_scale", gs_)
         r3 = one_fit("repeated", maxiter=full, start="near", grad_scale=gs_)
